@@ -16,12 +16,14 @@ import (
 	"fmt"
 	"os"
 	"path/filepath"
+	"reflect"
 	"sort"
 	"strings"
 	"sync"
 	"sync/atomic"
 	"testing"
 	"time"
+	"unsafe"
 
 	pb "go.etcd.io/etcd/api/v3/etcdserverpb"
 	"go.etcd.io/etcd/api/v3/mvccpb"
@@ -35,12 +37,13 @@ type c19KV struct {
 }
 
 type c19Op struct {
-	K   string  `json:"k"`           // put | del | txn | delprefix | sleep | mute | unmute | cancel | restart | stop | start
-	M   int     `json:"m,omitempty"` // stop/start: member whose etcd server is stopped/started (multi-member cluster)
-	Key string  `json:"key,omitempty"`
-	Val string  `json:"val,omitempty"`
-	KVs []c19KV `json:"kvs,omitempty"`
-	Ms  int     `json:"ms,omitempty"`
+	K    string  `json:"k"`           // put | del | txn | delprefix | sleep | mute | unmute | cancel | restart | stop | start
+	M    int     `json:"m,omitempty"` // stop/start: member whose etcd server is stopped/started (multi-member cluster)
+	Key  string  `json:"key,omitempty"`
+	Val  string  `json:"val,omitempty"`
+	Size int     `json:"size,omitempty"` // >256: the value is val[0] repeated size times (put, txn puts)
+	KVs  []c19KV `json:"kvs,omitempty"`
+	Ms   int     `json:"ms,omitempty"`
 }
 
 type c19Sub struct {
@@ -52,10 +55,13 @@ type c19Sub struct {
 }
 
 type c19In struct {
-	Members int      `json:"members,omitempty"` // >1: static cluster of that many members on one host
-	PullMs  int      `json:"pull_ms"`
-	Ops     []c19Op  `json:"ops"`
-	Subs    []c19Sub `json:"subs"`
+	Members int `json:"members,omitempty"` // >1: static cluster of that many members on one host
+	// >0: the syncer lives on a cluster handle built from the member's options with this NON-default
+	// cluster.max-call-send-msg-size (the receive side is left at its default)
+	SendLimit int      `json:"send_limit,omitempty"`
+	PullMs    int      `json:"pull_ms"`
+	Ops       []c19Op  `json:"ops"`
+	Subs      []c19Sub `json:"subs"`
 }
 
 type c19SubObs struct {
@@ -198,6 +204,34 @@ func c19Strip(ns, k string) string {
 	return "!" + k
 }
 
+// large values (size dimension) are recorded as a short token "#<length>:<byte>" when they are
+// the expected filler (one byte repeated), so that traces and Coq terms stay small; anything
+// else that long is recorded with a checksum and cannot match the model
+func c19Val(v string) string {
+	if len(v) <= 256 {
+		return v
+	}
+	if v == strings.Repeat(v[:1], len(v)) {
+		return fmt.Sprintf("#%d:%s", len(v), v[:1])
+	}
+	h := uint32(2166136261)
+	for i := 0; i < len(v); i++ {
+		h = (h ^ uint32(v[i])) * 16777619
+	}
+	return fmt.Sprintf("#%d:!%08x", len(v), h)
+}
+
+func c19Fill(val string, size int) string {
+	if size <= 256 {
+		return val
+	}
+	c := "x"
+	if len(val) > 0 {
+		c = val[:1]
+	}
+	return strings.Repeat(c, size)
+}
+
 func c19Content(ns string, m map[string]*mvccpb.KeyValue) [][2]string {
 	out := make([][2]string, 0, len(m))
 	for k, kv := range m {
@@ -209,7 +243,7 @@ func c19Content(ns string, m map[string]*mvccpb.KeyValue) [][2]string {
 		if key != k {
 			key = "!mapkey:" + k + "!kvkey:" + key
 		}
-		out = append(out, [2]string{c19Strip(ns, key), string(kv.Value)})
+		out = append(out, [2]string{c19Strip(ns, key), c19Val(string(kv.Value))})
 	}
 	sort.Slice(out, func(i, j int) bool { return out[i][0] < out[j][0] })
 	return out
@@ -232,7 +266,7 @@ func (e *c19Env) read(ns string, prefix bool, target string) ([][2]string, error
 		}
 		res = [][2]string{}
 		if kv != nil {
-			res = append(res, [2]string{c19Strip(ns, string(kv.Key)), string(kv.Value)})
+			res = append(res, [2]string{c19Strip(ns, string(kv.Key)), c19Val(string(kv.Value))})
 		}
 		return nil
 	})
@@ -303,7 +337,7 @@ func c19Subscribe(s Syncer, ns string, sub c19Sub, historyDone <-chan struct{}) 
 			for v := range ch {
 				m := [][2]string{}
 				if v != nil {
-					m = append(m, [2]string{sub.Target, *v})
+					m = append(m, [2]string{sub.Target, c19Val(*v)})
 				}
 				rec.add(m)
 				pace()
@@ -320,7 +354,7 @@ func c19Subscribe(s Syncer, ns string, sub c19Sub, historyDone <-chan struct{}) 
 			for kv := range ch {
 				m := [][2]string{}
 				if kv != nil {
-					m = append(m, [2]string{c19Strip(ns, string(kv.Key)), string(kv.Value)})
+					m = append(m, [2]string{c19Strip(ns, string(kv.Key)), c19Val(string(kv.Value))})
 				}
 				rec.add(m)
 				pace()
@@ -337,7 +371,7 @@ func c19Subscribe(s Syncer, ns string, sub c19Sub, historyDone <-chan struct{}) 
 			for kvs := range ch {
 				m := make([][2]string, 0, len(kvs))
 				for k, v := range kvs {
-					m = append(m, [2]string{c19Strip(ns, k), v})
+					m = append(m, [2]string{c19Strip(ns, k), c19Val(v)})
 				}
 				sort.Slice(m, func(i, j int) bool { return m[i][0] < m[j][0] })
 				rec.add(m)
@@ -406,15 +440,24 @@ func (e *c19Env) run(in c19In) (obs c19Obs) {
 	}
 	var sy Syncer
 	fault := &c19Fault{}
+	host := e.c
+	if in.SendLimit > 0 {
+		// a member configured with a small cluster.max-call-send-msg-size: same options, own etcd
+		// client built by getClient from them
+		o := *e.c.opt
+		o.Cluster.MaxCallSendMsgSize = in.SendLimit
+		host = &cluster{opt: &o, requestTimeout: e.c.requestTimeout, done: make(chan struct{})}
+		defer host.closeClient()
+	}
 	if faults || restarts {
-		client, err := e.c.getClient()
+		client, err := host.getClient()
 		if err != nil {
 			bad("client: %v", err)
 			return
 		}
-		cl := e.c
+		cl := host
 		if restarts {
-			cl = &cluster{opt: e.c.opt, requestTimeout: 400 * time.Millisecond, client: client, done: make(chan struct{})}
+			cl = &cluster{opt: host.opt, requestTimeout: 400 * time.Millisecond, client: client, done: make(chan struct{})}
 		}
 		if faults {
 			wclient, err := clientv3.New(clientv3.Config{
@@ -432,7 +475,7 @@ func (e *c19Env) run(in c19In) (obs c19Obs) {
 		sy = &syncer{cluster: cl, client: client, pullInterval: pull, done: make(chan struct{})}
 	} else {
 		var err error
-		sy, err = e.c.Syncer(pull)
+		sy, err = host.Syncer(pull)
 		if err != nil {
 			bad("syncer: %v", err)
 			return
@@ -505,7 +548,8 @@ func (e *c19Env) run(in c19In) (obs c19Obs) {
 		var err error
 		switch op.K {
 		case "put":
-			err = c19Retry(func() error { return e.w.Put(ns+op.Key, op.Val) })
+			val := c19Fill(op.Val, op.Size)
+			err = c19Retry(func() error { return e.w.Put(ns+op.Key, val) })
 		case "del":
 			err = c19Retry(func() error { return e.w.Delete(ns + op.Key) })
 		case "delprefix":
@@ -514,6 +558,10 @@ func (e *c19Env) run(in c19In) (obs c19Obs) {
 			kvs := map[string]*string{}
 			for _, kv := range op.KVs {
 				kvs[ns+kv.Key] = kv.Val
+				if kv.Val != nil && op.Size > 256 {
+					v := c19Fill(*kv.Val, op.Size)
+					kvs[ns+kv.Key] = &v
+				}
 			}
 			err = c19Retry(func() error { return e.txn(kvs) })
 		case "sleep":
@@ -860,14 +908,19 @@ func c19GenCase(r *vfRand, adv bool, withRestart bool) c19In {
 // cluster (no server is started): it must cover every member of cluster.initial-cluster.
 
 type c19EpIn struct {
-	Members  int  `json:"members"`
-	SameHost bool `json:"same_host"` // all members on localhost (ports differ) / one host name per member
+	SendLimit int  `json:"send_limit,omitempty"` // cluster.max-call-send-msg-size (0 = leave the option's default)
+	Members   int  `json:"members"`
+	SameHost  bool `json:"same_host"` // all members on localhost (ports differ) / one host name per member
 }
 
 type c19EpObs struct {
-	Endpoints int    `json:"endpoints"` // len(client.Endpoints())
-	Covers    bool   `json:"covers"`    // every peer URL of the initial cluster is an endpoint, no duplicates
-	Bad       string `json:"bad,omitempty"`
+	Endpoints int  `json:"endpoints"` // len(client.Endpoints())
+	Covers    bool `json:"covers"`    // every peer URL of the initial cluster is an endpoint, no duplicates
+	// per-call message size limits of the etcd client built by getClient (-1 = not observable)
+	SendOpt int    `json:"send_opt"` // the option value the client was built from
+	Send    int    `json:"send"`
+	Recv    int    `json:"recv"`
+	Bad     string `json:"bad,omitempty"`
 }
 
 func c19Endpoints(in c19EpIn) (obs c19EpObs) {
@@ -891,6 +944,10 @@ func c19Endpoints(in c19EpIn) (obs c19EpObs) {
 		}
 		opt.Cluster.InitialCluster = ic
 	}
+	if in.SendLimit > 0 {
+		opt.Cluster.MaxCallSendMsgSize = in.SendLimit
+	}
+	obs.SendOpt = opt.Cluster.MaxCallSendMsgSize
 	c := &cluster{opt: opt, requestTimeout: time.Second, done: make(chan struct{})}
 	client, err := c.getClient()
 	if err != nil {
@@ -898,6 +955,7 @@ func c19Endpoints(in c19EpIn) (obs c19EpObs) {
 		return
 	}
 	defer c.closeClient()
+	obs.Send, obs.Recv = c19CallLimits(client)
 	eps := client.Endpoints()
 	obs.Endpoints = len(eps)
 	have := map[string]int{}
@@ -908,6 +966,31 @@ func c19Endpoints(in c19EpIn) (obs c19EpObs) {
 	for _, u := range opt.Cluster.InitialCluster {
 		if have[u] != 1 {
 			obs.Covers = false
+		}
+	}
+	return
+}
+
+// the client keeps its per-call options in an unexported field; read them for the cheap,
+// deterministic check that the receive limit is not tied to the send option
+func c19CallLimits(cl *clientv3.Client) (send, recv int) {
+	send, recv = -1, -1
+	defer func() { recover() }()
+	f := reflect.ValueOf(cl).Elem().FieldByName("callOpts")
+	if !f.IsValid() {
+		return
+	}
+	f = reflect.NewAt(f.Type(), unsafe.Pointer(f.UnsafeAddr())).Elem()
+	opts, ok := f.Interface().([]grpc.CallOption)
+	if !ok {
+		return
+	}
+	for _, o := range opts {
+		switch v := o.(type) {
+		case grpc.MaxSendMsgSizeCallOption:
+			send = v.MaxSendMsgSize
+		case grpc.MaxRecvMsgSizeCallOption:
+			recv = v.MaxRecvMsgSize
 		}
 	}
 	return
@@ -930,6 +1013,44 @@ func c19EmitEndpoints(out *vfOut) {
 			out.Emit(vfCase{ID: fmt.Sprintf("gen-endpoints-%d-%v", n, same), Src: "gen", Grp: "endpoints", In: in, Obs: c19Endpoints(in)})
 		}
 	}
+	for _, lim := range []int{1, 4096, 64 << 10, 256 << 10, 1 << 20, 2 << 20, 10 << 20, 64 << 20} {
+		in := c19EpIn{Members: 1, SameHost: true, SendLimit: lim}
+		out.Emit(vfCase{ID: fmt.Sprintf("gen-limits-%d", lim), Src: "gen", Grp: "endpoints", In: in, Obs: c19Endpoints(in)})
+	}
+}
+
+// size dimension: values of 1 B .. ~200 KiB under one prefix, every single write far below the
+// member's (small, non-default) cluster.max-call-send-msg-size, the total content of the prefix
+// crossing it - and the gRPC / etcd client defaults of 2 MiB and 4 MiB with default options
+func c19GenSize(r *vfRand, limit, nkeys, size int) c19In {
+	in := c19In{SendLimit: limit, PullMs: r.PickInt(150, 200)}
+	fill := []string{"x", "y", "z"}
+	for i := 0; i < nkeys; i++ {
+		in.Ops = append(in.Ops, c19Op{K: "put", Key: fmt.Sprintf("big/k%02d", i), Val: fill[r.Intn(3)], Size: size - r.Intn(1000)})
+		if r.Chance(1, 4) {
+			in.Ops = append(in.Ops, c19Op{K: "sleep", Ms: r.PickInt(5, 40)})
+		}
+		if r.Chance(1, 6) {
+			in.Ops = append(in.Ops, c19Op{K: "put", Key: "big/small", Val: c19Vals[r.Intn(len(c19Vals))]})
+		}
+	}
+	// the watched content is now above the limit: overwrite, delete, tiny writes, and a final change
+	in.Ops = append(in.Ops,
+		c19Op{K: "put", Key: fmt.Sprintf("big/k%02d", r.Intn(nkeys)), Val: "w", Size: size},
+		c19Op{K: "put", Key: "big/one-byte", Val: "1"},
+		c19Op{K: "sleep", Ms: in.PullMs + 50},
+		c19Op{K: "put", Key: "other/k", Val: "v", Size: size})
+	if nkeys >= 6 { // (with fewer keys a delete would bring the total back under the limit)
+		in.Ops = append(in.Ops, c19Op{K: "del", Key: fmt.Sprintf("big/k%02d", 1+r.Intn(nkeys-1))})
+	}
+	in.Ops = append(in.Ops, c19Op{K: "put", Key: "big/k00", Val: "f", Size: size - r.Intn(1000)})
+	in.Subs = []c19Sub{
+		{Kind: "prefix", Target: "big/", At: 0, Consumer: "fast"},
+		{Kind: "rawprefix", Target: "big/", At: r.Range(1, nkeys), Consumer: r.PickStr("late", "slow"), DelayMs: 20},
+		{Kind: r.PickStr("sync", "raw"), Target: "big/k00", At: 0, Consumer: "fast"},
+		{Kind: "prefix", Target: "big/", At: len(in.Ops), Consumer: "fast"}, // first pull already above the limit
+	}
+	return in
 }
 
 func TestVerifC19(t *testing.T) {
@@ -973,6 +1094,19 @@ func TestVerifC19(t *testing.T) {
 			// always a watch fault, late consumers)
 			hard := adv || (vfTier() == "thorough" && i%5 == 4)
 			jobs = append(jobs, &job{id: fmt.Sprintf("%s-sync-%d", src, i), src: src, in: c19GenCase(r, hard, restart)})
+		}
+	}
+	if !vfReplayOnly() {
+		// a handful of large histories: (option, keys, value size) - prefix totals of about
+		// 100 KiB / 300 KiB / 1.2 MiB / 2.4 MiB against limits below them, and 4.4 MiB with default options
+		root := vfNewRand(vfSeed())
+		shapes := [][3]int{{64 << 10, 3, 40 << 10}, {256 << 10, 3, 100 << 10}, {1 << 20, 6, 200 << 10}, {2 << 20, 12, 200 << 10}, {0, 22, 200 << 10}}
+		if vfTier() == "thorough" {
+			shapes = append(shapes, [3]int{256 << 10, 14, 20 << 10}, [3]int{16 << 10, 5, 4000}, [3]int{1 << 20, 11, 100 << 10},
+				[3]int{2 << 20, 22, 100 << 10}, [3]int{0, 11, 200 << 10}, [3]int{512 << 10, 3, 190 << 10})
+		}
+		for i, sh := range shapes {
+			jobs = append(jobs, &job{id: fmt.Sprintf("gen-size-%d", i), src: "gen", in: c19GenSize(root.Fork(5000+i), sh[0], sh[1], sh[2])})
 		}
 	}
 	for _, j := range jobs {
